@@ -119,6 +119,7 @@ type Path struct {
 	events  []string
 	outcome map[string]Val
 	depth   int
+	prefs   []*Term
 }
 
 type unwindKey struct {
@@ -322,7 +323,17 @@ func (p *Path) vxAssert(label string, c *Term) {
 	}
 	neg := p.not(c)
 	outside := p.not(p.knownUnion())
-	r, model := p.query(true, neg, outside)
+	var r string
+	var model map[string]string
+	if len(p.prefs) > 0 {
+		// soft constraints first: prefer counterexamples the native replayer can realise
+		r, model = p.query(true, append([]*Term{neg, outside}, p.prefs...)...)
+		if r != "sat" {
+			r, model = p.query(true, neg, outside)
+		}
+	} else {
+		r, model = p.query(true, neg, outside)
+	}
 	switch r {
 	case "sat":
 		vec, tags := p.model2vec(model)
